@@ -27,7 +27,7 @@ OPS = OPS_COMMON + OPS_OWN
 SWAPS = ["seq", "sne", "sgt", "sge", "slt", "sle", "sadd"]      # q2 op' q1, mirror of eq ne lt le gt ge add
 OPCODE = {o: i for i, o in enumerate(OPS + SWAPS)}
 CTYPE = {k: v[0] for k, v in INT_TYPES.items()}
-FTYPES = {"f32": ("float", 24), "f64": ("double", 53)}
+FTYPES = {"f32": ("float", 24), "f64": ("double", 53), "f80": ("long double", 64)}
 OVERFLOW_THRESHOLD = 2147
 
 
@@ -182,12 +182,26 @@ def gen_instances(rng, tier):
             for _ in range(3):
                 k1, k2 = coprime_pair(rng, "general", km, km)
                 out.append(make_inst(r1, r2, k1, k2, rng.choice(G_CHOICES), why="general"))
+        if r1 != r2:
+            # the SAME unit type with different reps (identical-type fast paths must not differ from equivalent types)
+            ins = make_inst(r1, r2, 1, 1, rng.choice(G_CHOICES), why="same unit, different reps")
+            ins["same_unit"] = True
+            out.append(ins)
+    # same-width, distinct types (`long` vs `long long`): the model identifies them, the library must not care
+    for (r, a, b) in (("i64", "long long", "long"), ("u64", "unsigned long", "unsigned long long")):
+        k1, k2 = coprime_pair(rng, rng.choice(["integer", "reciprocal", "general"]), kmax(r), kmax(r))
+        ins = make_inst(r, r, k1, k2, rng.choice(G_CHOICES), why="long vs long long")
+        ins["ct1"], ins["ct2"] = a, b
+        out.append(ins)
+        ins = make_inst(r, r, 1, 1, rng.choice([g for g in G_CHOICES if g != (1, 1)]), named=(True, False), why="long vs long long")
+        ins["ct1"], ins["ct2"] = b, a
+        out.append(ins)
     res, seen = [], set()
     for ins in out:
-        key = (ins["r1"], ins["r2"], ins["n1"], ins["d1"], ins["n2"], ins["d2"], ins["named1"], ins["named2"])
+        key = (ins["r1"], ins["r2"], ins["n1"], ins["d1"], ins["n2"], ins["d2"], ins["named1"], ins["named2"], ins.get("ct1"), ins.get("ct2"))
         if key in seen or not units_ok(ins):
             continue
-        if ins["n1"] * ins["d2"] == ins["n2"] * ins["d1"] and ins["named1"] == ins["named2"]:
+        if ins["n1"] * ins["d2"] == ins["n2"] * ins["d1"] and ins["named1"] == ins["named2"] and not ins.get("same_unit"):
             ins["named1"] = True      # equal scales: the two unit types must differ, or it is not a mixed-unit case
             ins["named2"] = False
         if (ins["n1"] == ins["d1"] and ins["named1"]) or (ins["n2"] == ins["d2"] and ins["named2"]):
@@ -200,9 +214,10 @@ def gen_instances(rng, tier):
 
 def gen_float_instances(rng, tier):
     n = 10 if tier == "quick" else 40
-    pairs = [("f32", "f32"), ("f64", "f64"), ("f32", "f64"), ("f64", "f32"), ("i32", "f64"), ("f32", "i16"), ("i64", "f64")]
+    pairs = [("f32", "f32"), ("f64", "f64"), ("f32", "f64"), ("f64", "f32"), ("i32", "f64"), ("f32", "i16"), ("i64", "f64"),
+             ("f80", "f80"), ("f64", "f80"), ("f80", "i32")]
     out = []
-    for i in range(n):
+    for i in range(max(n, len(pairs))):
         r1, r2 = pairs[i % len(pairs)]
         kind = rng.choice(["integer", "reciprocal", "general", "general"])
         k1, k2 = coprime_pair(rng, kind, 5000, 5000)
@@ -272,6 +287,7 @@ template <class R1, class R2, class U1, class U2> struct CommonOps<R1, R2, U1, U
             case 14: return q2 < q1;
             case 15: return q2 <= q1;
             case 16: return static_cast<i128>((q2 + q1).in(C{}));
+            case 17: return static_cast<i128>((q2 - q1).in(C{}));
         }
         return -99;
     }
@@ -296,8 +312,10 @@ template <class R1, class R2, class U1, class U2> struct OwnOps<R1, R2, U1, U2, 
         const auto q2 = au::make_quantity<U2>(static_cast<R2>(b));
         switch (w) {
             case 8: return static_cast<i128>((q1 % q2).in(C{}));
+            case 18: return static_cast<i128>((q2 % q1).in(C{}));
 #if __cplusplus >= 202002L
             case 9: { const auto s = (q1 <=> q2); return s < 0 ? 0 : (s == 0 ? 1 : (s > 0 ? 2 : 3)); }
+            case 19: { const auto s = (q2 <=> q1); return s < 0 ? 0 : (s == 0 ? 1 : (s > 0 ? 2 : 3)); }
 #endif
         }
         return -99;
@@ -310,7 +328,7 @@ template <class R1, class R2, class U1, class U2> struct OwnOps<R1, R2, U1, U2, 
 template <class R1, class R2, class U1, class U2, bool CommonOk, bool OwnOk> struct Inst {
     using C = au::CommonUnitT<U1, U2>;
     static i128 op(int w, i128 a, i128 b) {
-        return (w == 8 || w == 9) ? OwnOps<R1, R2, U1, U2, OwnOk>::op(w, a, b) : CommonOps<R1, R2, U1, U2, CommonOk>::op(w, a, b);
+        return (w == 8 || w == 9 || w == 18 || w == 19) ? OwnOps<R1, R2, U1, U2, OwnOk>::op(w, a, b) : CommonOps<R1, R2, U1, U2, CommonOk>::op(w, a, b);
     }
     static long double fop(int, long double, long double) { return 0; }
     static void info(char* b, size_t n) {
@@ -518,6 +536,11 @@ int main() {
                             && (e->op(13, v1, v2) == got[3]) && (e->op(14, v1, v2) == got[4]) && (e->op(15, v1, v2) == got[5]);
                     if (have[6]) ok = ok && (e->op(16, v1, v2) == got[6]);
                     if (have[9] && fo) ok = ok && (got[9] == (lt ? 0 : (eq ? 1 : 2)));
+                    // mirror forms of -, %, <=> (judged against the exact oracle, trap-safe)
+                    i128 rr = 0;
+                    if (plo <= B - A && B - A <= phi) ok = ok && call_op(e, 17, v1, v2, &rr) && rr == B - A;
+                    if (e->own_ok && A != 0 && !(B == mlo && A == -1)) ok = ok && call_op(e, 18, v1, v2, &rr) && rr == B % A;
+                    if (e->own_ok && have3) ok = ok && call_op(e, 19, v1, v2, &rr) && rr == (B < A ? 0 : (B == A ? 1 : 2));
                     if (!ok) { if (!cons_bad++) cons_first = s128(v1) + "," + s128(v2); }
                 }
             }
@@ -542,6 +565,11 @@ def ctype(r):
     return CTYPE[r] if r in CTYPE else FTYPES[r][0]
 
 
+def ctype_of(ins, side):
+    """C++ spelling of the rep of operand `side` ("1"/"2"): an instance may override it (long long vs long)."""
+    return ins.get("ct" + side) or ctype(ins["r" + side])
+
+
 def write_table(path, name, ch, gates):
     with open(path, "w") as f:
         f.write(HARNESS_COMMON)
@@ -553,10 +581,10 @@ def write_table(path, name, ch, gates):
         for ins in ch:
             u = [f"Named{ins['id']}_{s}" if ins.get("named" + s) else unit_expr(ins["n" + s], ins["d" + s]) for s in ("1", "2")]
             if ins["r1"] in FTYPES or ins["r2"] in FTYPES:
-                f.write(f"  FENTRY({ins['id']}, {ctype(ins['r1'])}, {ctype(ins['r2'])}, {u[0]}, {u[1]}),\n")
+                f.write(f"  FENTRY({ins['id']}, {ctype_of(ins, '1')}, {ctype_of(ins, '2')}, {u[0]}, {u[1]}),\n")
             else:
                 co, oo = gates[ins["id"]]
-                f.write(f"  ENTRY({ins['id']}, {ctype(ins['r1'])}, {ctype(ins['r2'])}, {u[0]}, {u[1]}, "
+                f.write(f"  ENTRY({ins['id']}, {ctype_of(ins, '1')}, {ctype_of(ins, '2')}, {u[0]}, {u[1]}, "
                         f"{'true' if co else 'false'}, {'true' if oo else 'false'}),\n")
         f.write("};\n")
 
@@ -586,14 +614,14 @@ def write_main(wd, live):
     return p
 
 
-def build_harness(wd, files, compiler, std, tag):
+def build_harness(wd, files, compiler, std, tag, san=True):
     """Returns (exe, failures, dead_ids).  A table that does not compile is split into one TU per instance; the
     instances that still do not compile are dropped from this configuration (and reported by the caller), so
     that the surviving instances can still produce concrete failing inputs."""
     def comp(t):
         src = t[0]
         obj = src[:-3] + f".{tag}.o"
-        rc, out = cxx(src, obj, compiler=compiler, std=std, extra=["-c"])
+        rc, out = cxx(src, obj, compiler=compiler, std=std, extra=["-c"], san=san)
         return (t, obj, rc, out)
     res = pmap(comp, files["tables"])
     live, objs, failures, dead = [], [], [], []
@@ -622,7 +650,7 @@ def build_harness(wd, files, compiler, std, tag):
         return None, [{"src": mainp, "output": out[-4000:]}], dead
     objs.append(obj)
     exe = os.path.join(wd, f"harness_{tag}")
-    rc, out, err = run(link_cmd(compiler, objs, exe))
+    rc, out, err = run(link_cmd(compiler, objs, exe) if san else [compiler] + objs + ["-o", exe])
     if rc != 0:
         return None, [{"src": "link", "output": (out + err)[-4000:]}], dead
     return exe, failures, dead
@@ -688,12 +716,36 @@ def interesting(t, c, k, rng):
     return sorted({clip(t, v) for v in vs})
 
 
+def directed(t, c, k):
+    """Directed operand values (each becomes the centre of a 3-wide span): min, zero, max of the own rep, the
+    largest/smallest value whose scaled image fits the common rep, and half of the promoted limit (sum boundary)."""
+    p = promote(c)
+    vs = {ty_lo(t), 0, ty_hi(t), ty_hi(c) // k, ty_hi(p) // (2 * k)}
+    if ty_lo(t) < 0:
+        vs |= {-(-ty_lo(c) // k), -(-ty_lo(p) // (2 * k))}
+    return sorted({clip(t, v) for v in vs})
+
+
+def gen_directed_windows(ins, k1, k2):
+    """3x3 rectangles around the cross product of the directed values of both operands: judged in EVERY run."""
+    r1, r2 = ins["r1"], ins["r2"]
+    c = common_ty(r1, r2)
+    out, seen = [], set()
+    for a in directed(r1, c, k1):
+        for b in directed(r2, c, k2):
+            key = (clip(r1, a - 1), clip(r1, a + 1), clip(r2, b - 1), clip(r2, b + 1))
+            if key not in seen:
+                seen.add(key)
+                out.append(key)
+    return out
+
+
 def gen_windows(rng, ins, k1, k2, tier):
     r1, r2 = ins["r1"], ins["r2"]
     c = common_ty(r1, r2)
     b1, b2 = INT_TYPES[r1][1], INT_TYPES[r2][1]
     w = 40 if tier == "quick" else 64
-    nwin = 4 if tier == "quick" else 10
+    nwin = 3 if tier == "quick" else 10
     if b1 == 8 and b2 == 8:
         return [(ty_lo(r1), ty_hi(r1), ty_lo(r2), ty_hi(r2))]
 
@@ -821,8 +873,12 @@ def inst_key(ins):
 
 
 def base_rec(ins, cfg):
-    return {"r1": ins["r1"], "r2": ins["r2"], "n1": ins["n1"], "d1": ins["d1"], "n2": ins["n2"], "d2": ins["d2"],
-            "named1": ins.get("named1", False), "named2": ins.get("named2", False), "config": cfg}
+    rec = {"r1": ins["r1"], "r2": ins["r2"], "n1": ins["n1"], "d1": ins["d1"], "n2": ins["n2"], "d2": ins["d2"],
+           "named1": ins.get("named1", False), "named2": ins.get("named2", False), "config": cfg}
+    for k in ("ct1", "ct2", "same_unit"):
+        if ins.get(k):
+            rec[k] = ins[k]
+    return rec
 
 
 def model_units(drv, insts):
@@ -841,7 +897,7 @@ def neg_probe_src(ins, which):
     named = "".join(f"struct NamedP_{s} : {unit_expr(ins['n' + s], ins['d' + s])} {{}};\n" for s in ("1", "2") if ins.get("named" + s))
     u = [f"NamedP_{s}" if ins.get("named" + s) else u[j] for j, s in enumerate(("1", "2"))]
     tmpl, opn = ("CommonOps", 2) if which == "common" else ("OwnOps", 8)
-    return (HARNESS_COMMON + named + f"int main() {{ return int({tmpl}<{ctype(ins['r1'])}, {ctype(ins['r2'])}, {u[0]}, {u[1]}, true>::op({opn}, 1, 1)); }}\n")
+    return (HARNESS_COMMON + named + f"int main() {{ return int({tmpl}<{ctype_of(ins, '1')}, {ctype_of(ins, '2')}, {u[0]}, {u[1]}, true>::op({opn}, 1, 1)); }}\n")
 
 
 PROBE_ALLOW = ("Dangerous conversion", "static assertion failed", "static_assert failed")
@@ -874,11 +930,16 @@ def explore(prop, tier, seed, rng, wd):
     # "exact" = clang++-14 with the exact-count UBSan handlers (vlib.SAN_EXACT): EVERY undefined operation / unsigned
     # wrap calls __ubsan_on_report, so the per-input `ub` counts are reliable there (the full runtimes report a source
     # location once per process, and g++'s libubsan never calls the executable's hook).  C++20 so that <=> runs.
-    configs = [("g++", "c++14", "g14"), ("exact", "c++20", "x20")]
+    # The remaining compiler x standard combinations run a reduced harness in the quick tier ("mini": a fixed-size subset
+    # of instances of every class, no sanitizers, directed windows + points), so that every run judges the operators
+    # under C++14/17/20 on both compilers (overload resolution differs: rewritten candidates in C++20).
+    configs = [("g++", "c++14", "g14", False), ("exact", "c++20", "x20", False),
+               ("g++", "c++20", "mg20", True), ("g++", "c++17", "mg17", True),
+               ("clang++-14", "c++14", "mc14", True), ("clang++-14", "c++17", "mc17", True)]
     if tier == "thorough":
-        configs = [("g++", "c++14", "g14"), ("g++", "c++17", "g17"), ("g++", "c++20", "g20"),
-                   ("clang++-14", "c++14", "c14"), ("clang++-14", "c++17", "c17"), ("clang++-14", "c++20", "c20"),
-                   ("exact", "c++20", "x20"), ("exact", "c++14", "x14")]
+        configs = [("g++", "c++14", "g14", False), ("g++", "c++17", "g17", False), ("g++", "c++20", "g20", False),
+                   ("clang++-14", "c++14", "c14", False), ("clang++-14", "c++17", "c17", False), ("clang++-14", "c++20", "c20", False),
+                   ("exact", "c++20", "x20", False), ("exact", "c++14", "x14", False)]
     by_id = {i["id"]: i for i in insts + finsts}
     stats = {"instances": len(insts), "float_instances": len(finsts), "triangles": len(tri), "configs": [], "rep_pairs": {},
              "ratio_classes": {}, "gate": {"common_ok": 0, "common_rejected": 0, "own_ok": 0, "own_rejected": 0},
@@ -894,11 +955,15 @@ def explore(prop, tier, seed, rng, wd):
         stats["gate"]["own_ok" if oo else "own_rejected"] += 1
     # inputs (shared by all configurations)
     npts = 40 if tier == "quick" else 150
-    wins, pts = {}, {}
+    wins, pts, dwins = {}, {}, {}
     for i in insts:
         k1, k2 = int(mu[i["id"]]["k1"]), int(mu[i["id"]]["k2"])
         co, oo = gates[i["id"]]
         wins[i["id"]] = gen_windows(rng, i, k1, k2, tier) if (co or oo) else []
+        dwins[i["id"]] = [w for w in gen_directed_windows(i, k1, k2) if w not in wins[i["id"]]] if (co or oo) else []
+        if INT_TYPES[i["r1"]][1] == 8 and INT_TYPES[i["r2"]][1] == 8:
+            dwins[i["id"]] = []          # already exhaustive
+        wins[i["id"]] = wins[i["id"]] + dwins[i["id"]]
         pts[i["id"]] = gen_points(rng, i, k1, k2, npts) if (co or oo) else []
     # model digests for the windows (independent of the configuration)
     sreq, skeys = [], []
@@ -914,9 +979,30 @@ def explore(prop, tier, seed, rng, wd):
     samples, distinct = [], set()
     fpts = {i["id"]: gen_float_points(rng, i, 30 if tier == "quick" else 120) for i in finsts}
     tvals = {t["idx"]: gen_triangle_values(rng, t, mu, 40 if tier == "quick" else 200) for t in tri}
-    for (compiler, std, tag) in configs:
+    # the reduced harness: one instance of every ratio class / special shape, spread over the rep pairs, + floats
+    mini_ids, seen_cls = [], {}
+    for i in insts:
+        co, oo = gates[i["id"]]
+        cls = i["why"]
+        if co and oo and seen_cls.get(cls, 0) < (3 if cls in ("integer", "reciprocal", "general", "equal-scale twin") else 2):
+            # prefer different rep pairs within a class
+            if any(by_id[j]["why"] == cls and (by_id[j]["r1"], by_id[j]["r2"]) == (i["r1"], i["r2"]) for j in mini_ids):
+                continue
+            seen_cls[cls] = seen_cls.get(cls, 0) + 1
+            mini_ids.append(i["id"])
+    mini_set = set(mini_ids) | {i["id"] for i in finsts[:4]}
+    stats["mini_instances"] = len(mini_set)
+    mini_files = None
+    if any(c[3] for c in configs):
+        mwd = os.path.join(wd, "mini")
+        os.makedirs(mwd, exist_ok=True)
+        mini_files = (mwd, write_harness(mwd, [i for i in insts + finsts if i["id"] in mini_set], gates, nchunks=4))
+    for (compiler, std, tag, mini) in configs:
         cfg = f"{compiler} -std={std}"
-        exe, fails, dead = build_harness(wd, files, compiler, std, tag)
+        if mini:
+            exe, fails, dead = build_harness(mini_files[0], mini_files[1], compiler, std, tag, san=False)
+        else:
+            exe, fails, dead = build_harness(wd, files, compiler, std, tag)
         for fl in (fails or [])[:3]:
             violations.append({
                 "what": f"harness does not compile under {cfg}: an operation the model's policy gate admits is rejected "
@@ -928,17 +1014,17 @@ def explore(prop, tier, seed, rng, wd):
             continue
         dead = set(dead)
         stats["dropped_instances"] = stats.get("dropped_instances", 0) + len(dead)
-        stats["configs"].append(cfg)
+        stats["configs"].append(cfg + (" (reduced harness)" if mini else ""))
         cpp20 = std == "c++20"
         lines = []
-        linsts = [i for i in insts if i["id"] not in dead]
-        lfinsts = [i for i in finsts if i["id"] not in dead]
+        linsts = [i for i in insts if i["id"] not in dead and (not mini or i["id"] in mini_set)]
+        lfinsts = [i for i in finsts if i["id"] not in dead and (not mini or i["id"] in mini_set)]
         for i in linsts + lfinsts:
             lines.append(f"I {i['id']}")
         for i in linsts:
             c = common_ty(i["r1"], i["r2"])
             k1, k2 = mu[i["id"]]["k1"], mu[i["id"]]["k2"]
-            for wdw in wins[i["id"]]:
+            for wdw in (dwins[i["id"]] or wins[i["id"]][:1]) if mini else wins[i["id"]]:
                 lines.append(f"S {i['id']} {k1} {k2} {wdw[0]} {wdw[1]} {wdw[2]} {wdw[3]} {INT_TYPES[c][1]} {int(INT_TYPES[c][2])}")
         # points: pre-filtered by the oracle (out-of-scope cases are counted, never executed)
         preq = []
@@ -954,7 +1040,7 @@ def explore(prop, tier, seed, rng, wd):
                         stats["skipped_out_of_scope"] += 1
                         continue
                     preq.append((i["id"], op, v1, v2, o))
-        treq = triangle_requests([t for t in tri if not any(x["id"] in dead for x in t["insts"])], tvals, mu, gates, preq, stats)
+        treq = [] if mini else triangle_requests([t for t in tri if not any(x["id"] in dead for x in t["insts"])], tvals, mu, gates, preq, stats)
         for (iid, op, v1, v2, o) in preq:
             lines.append(f"P {iid} {OPCODE[op]} {v1} {v2}")
         pres = {}
@@ -1074,7 +1160,7 @@ def check_info(ins, r, m, gate, base, violations):
     if (r["k1"], r["k2"]) != (m["k1"], m["k2"]):
         violations.append({"what": "model and library disagree on the ratios to the common unit", "class": "corr-commonunit", "no_input": True,
                            "broken": "correspondence: URat.ratioL/ratioR vs CommonUnitT", "rec": dict(base, kind="corr", impl=r, model=m)})
-    if r.get("twin") == "1":
+    if r.get("twin") == "1" and not ins.get("same_unit"):
         violations.append({"what": "generator produced identical unit types (not a mixed-unit case)", "class": "gen-twin", "no_input": True,
                            "broken": "generator", "rec": dict(base, kind="corr")})
     if "flt" in r or gate is None:
@@ -1094,7 +1180,7 @@ def check_sweep(ins, wdw, head, ops, mdig, cpp20, gate, base, k1, k2, violations
     r1, r2 = ins["r1"], ins["r2"]
     if int(head["cons_bad"]):
         v1, v2 = head["cons_first"].split(",")
-        violations.append({"what": f"the comparisons are not mutually consistent (trichotomy / mirror forms / <=>) at ({v1}, {v2})",
+        violations.append({"what": f"the comparisons are not mutually consistent, or a mirror form (q2 op' q1, q2+q1, q2-q1, q2%q1, q2<=>q1) is not exact, at ({v1}, {v2})",
                            "class": f"oracle-consistency-{r1}-{r2}", "rec": dict(base, kind="oracle", op="consistency", v1=int(v1), v2=int(v2), window=list(wdw))})
     for op, s in ops.items():
         stats["window_op_evals"] += s["n"]
@@ -1268,6 +1354,20 @@ def gen_float_points(rng, ins, count):
         return to_f32(v) if r == "f32" else v
     pts = []
     u1, u2 = Fraction(ins["n1"], ins["d1"]), Fraction(ins["n2"], ins["d2"])
+    # directed special values (every run): signed zeros, smallest subnormal, a huge finite value, infinities, NaN
+    def special(r, other_k):
+        if r in INT_TYPES:
+            return [0, 1, -1 if ty_lo(r) < 0 else 2]
+        tiny = 2.0 ** -149 if r == "f32" else 5e-324
+        big = (3.0e38 if r == "f32" else 1.0e308) / (4 * other_k)
+        big = to_f32(big) if r == "f32" else big
+        return [0.0, -0.0, tiny, -tiny, big, -big, float("inf"), float("-inf"), float("nan"), 1.5]
+    kk = rat_gcd(u1, u2)
+    ka, kb = int(u1 / kk), int(u2 / kk)
+    s1, s2 = special(ins["r1"], ka), special(ins["r2"], kb)
+    for j in range(max(len(s1), len(s2))):
+        pts.append((s1[j % len(s1)], s2[(j + 1) % len(s2)]))
+        pts.append((s1[j % len(s1)], s2[j % len(s2)]))
     for _ in range(count):
         a = val(ins["r1"])
         if rng.random() < 0.4:
@@ -1282,6 +1382,46 @@ def gen_float_points(rng, ins, count):
     return pts
 
 
+def hex_to_fraction(t):
+    """Exact value of a printf("%La") string (64-bit mantissas do not fit a Python float); None for inf/nan."""
+    t = t.strip().lower()
+    neg = t.startswith("-")
+    t = t.lstrip("+-")
+    if "nan" in t:
+        return "nan"
+    if "inf" in t:
+        return "-inf" if neg else "inf"
+    mant, _, ex = t[2:].partition("p")
+    ip, _, fp = mant.partition(".")
+    v = Fraction(int((ip + fp) or "0", 16), 16 ** len(fp)) * (Fraction(2) ** int(ex or "0"))
+    return -v if neg else v
+
+
+def check_float_special(ins, op, v1, v2, r, got, rec, violations, stats):
+    """Operands with an infinity or a NaN have no exact rational value: judged by IEEE semantics of the scaled operands
+    (inf * k = inf, NaN * k = NaN)."""
+    import math as _m
+    a, b = float(v1), float(v2)
+    stats["float_special_evals"] = stats.get("float_special_evals", 0) + 1
+    if op in ("add", "sub"):
+        want = a + b if op == "add" else a - b      # finite partners cannot change an infinity; inf - inf = NaN
+        if _m.isnan(want):
+            ok = got == "nan"
+        elif _m.isinf(want):
+            ok = got == ("inf" if want > 0 else "-inf")
+        else:
+            ok = False
+    elif op == "cmp3":
+        want = 3 if (_m.isnan(a) or _m.isnan(b)) else (0 if a < b else (1 if a == b else 2))
+        ok = got == Fraction(want)
+    else:
+        want = int({"eq": a == b, "ne": a != b, "lt": a < b, "le": a <= b, "gt": a > b, "ge": a >= b}[op])
+        ok = got == Fraction(want)
+    if not ok:
+        violations.append({"what": f"floating {op} on a non-finite operand ({a!r}, {b!r}): answered {r['val']}, IEEE semantics give {want!r}",
+                           "class": f"oracle-float-special-{op}", "rec": dict(rec, want=str(want))})
+
+
 def check_float(ins, op, v1, v2, r, m, base, violations, stats):
     fl = [x for x in (ins["r1"], ins["r2"]) if x in FTYPES]
     p = max(FTYPES[x][1] for x in fl)              # precision of the common floating rep
@@ -1289,21 +1429,27 @@ def check_float(ins, op, v1, v2, r, m, base, violations, stats):
     u1, u2 = Fraction(ins["n1"], ins["d1"]), Fraction(ins["n2"], ins["d2"])
     k1 = int(m["k1"])
     g = u1 / k1
-    x, y = Fraction(v1) * u1, Fraction(v2) * u2
-    A, B = x / g, y / g
     stats["float_op_evals"] += 1
-    got = float.fromhex(r["val"])
+    got = hex_to_fraction(r["val"])
     rec = dict(base, kind="oracle", op=op, v1=float(v1).hex(), v2=float(v2).hex(), got=r["val"], flt=True)
     if r["ub"] != "0":
         violations.append({"what": f"floating {op}: sanitizer report", "class": f"ub-float-{op}", "rec": rec})
+    if any(isinstance(v, float) and (v != v or v in (float("inf"), float("-inf"))) for v in (v1, v2)):
+        check_float_special(ins, op, v1, v2, r, got, rec, violations, stats)
+        return
+    if isinstance(got, str):
+        violations.append({"what": f"floating {op}: non-finite answer {r['val']} on finite operands", "class": f"oracle-float-{op}", "rec": rec})
+        return
+    x, y = Fraction(v1) * u1, Fraction(v2) * u2
+    A, B = x / g, y / g
     if op in ("add", "sub"):
         exact = A + B if op == "add" else A - B
         scale = abs(A) + abs(B)
-        err = abs(Fraction(got) - exact)
+        err = abs(got - exact)
         if scale > 0:
             stats["float_max_err_u"] = max(stats["float_max_err_u"], float(err / (u * scale)))
         if err > 3 * u * scale:
-            violations.append({"what": f"floating {op}: result {got!r} differs from the exact value {float(exact)!r} by more than 3 units of "
+            violations.append({"what": f"floating {op}: result {float(got)!r} differs from the exact value {float(exact)!r} by more than 3 units of "
                                        f"roundoff of the operands", "class": f"oracle-float-{op}", "rec": dict(rec, want=float(exact))})
         return
     amb = abs(A - B) <= 2 * u * (abs(A) + abs(B)) and A != B
@@ -1342,6 +1488,9 @@ def replay(prop, rec):
     drv = RetryDriver()
     ins = {"id": 0, "r1": r["r1"], "r2": r["r2"], "n1": int(r["n1"]), "d1": int(r["d1"]), "n2": int(r["n2"]), "d2": int(r["d2"]),
            "named1": r.get("named1", False), "named2": r.get("named2", False), "why": "replay"}
+    for k in ("ct1", "ct2", "same_unit"):
+        if r.get(k):
+            ins[k] = r[k]
     mu = model_units(drv, [ins])
     gates = model_gates(drv, [ins], mu)
     files = write_harness(wd, [ins], gates, nchunks=1)
